@@ -51,6 +51,12 @@ def run(ctx):
     for sp in long:
         sp['opts']['split'] = 'd'
     specs += long
+    # assets that live only in part of the horizon, no market at the nodes: some intervals have no active asset at all
+    gap = gen.gen_many(ctx.seed, n // 4, dict(CFG, p_market=0.0, p_window=1.0, window_kinds=['inside', 'left', 'right'], n_assets=(1, 3), T=(6, 12),
+                                              kinds={'SimpleContract': 3, 'Transport': 1, 'Storage': 1}), 'c14gap_')
+    for sp in gap:
+        sp['opts']['split'] = {'h': '3h', '30min': '2h'}[sp['grid']['freq']]
+    specs += gap
     specs += util.split_twin_specs(ctx.seed, 10 if ctx.tier == 'quick' else 60, 'c14tw_')
     specs += util.orderbook_tail_specs(ctx.seed, 8 if ctx.tier == 'quick' else 50, 'c14ob_')
     specs = ctx.specs(specs)
@@ -67,8 +73,15 @@ def run(ctx):
         ctx.cov['impl_oracle_evaluations'] += 1
         payload = {'spec': sp}
         if 'setup_error' in s:
-            ctx.violation('impl-violation', dict(payload, observed='split set-up fails: ' + s['setup_error'], expected='a portfolio that can be set up can be set up split'),
-                          trigger={'what': 'split set-up fails'})
+            # is there an interval in which no asset has a single step?  (the calendar decides, independently of eaopack)
+            from props.C08 import asset_steps
+            alive = set(t for a in sp['assets'] for t in (asset_steps(sp['grid'], a) if a['kind'] != 'OrderBook' else range(sp['grid']['T'])))
+            empty = [k for k, st in enumerate(interval_ranges(sp, sp['opts']['split'])) if not (set(st) & alive)]
+            trig = {'what': 'split set-up fails'}
+            if empty and 'index_portf' in s['setup_error']:
+                trig = {'what': 'split set-up fails: interval without any active asset'}
+            ctx.violation('impl-violation', dict(payload, observed='split set-up fails: ' + s['setup_error'], intervals_without_active_asset=empty,
+                                                 expected='a portfolio that can be set up can be set up split'), trigger=trig)
             continue
         ctx.count('intervals:%d' % len(s['ops']))
         bad = {}
